@@ -13,8 +13,6 @@ import (
 	"crypto/rand"
 	"crypto/rsa"
 	"crypto/sha256"
-	"fmt"
-	"math/big"
 )
 
 // rsaKey is the 2048-bit RSA key used by the RSA-PSS checks: generated once by crypto/rsa from the
@@ -128,6 +126,4 @@ func (e *env) stdlibSection() {
 	dk := must(mlkem.GenerateKey768())
 	o.Count("stdlib/mlkem.GenerateKey768/pattern=" + e.t.Pattern())
 	e.probe("mlkem768.Encapsulate", runs, func() []byte { _, ct := dk.EncapsulationKey().Encapsulate(); return ct })
-	_ = big.NewInt
-	_ = fmt.Sprint
 }
